@@ -127,7 +127,7 @@ void case_impl(Ctx &c, bool ext, bool runs = false) {
   int steps = 0, retyped = 0, remapped = 0; uint32_t longest_run = 0;
   while (!c.t.exhausted() && steps < 200) {
     steps++; c.ops++;
-    static const uint16_t W[12] = {60, 10, 14, 14, 6, 12, 8, 8, 4, 4, 4, 4}, WX[14] = {60, 10, 14, 14, 6, 12, 8, 8, 4, 4, 4, 4, 6, 6}, WY[17] = {40, 8, 10, 10, 4, 10, 8, 4, 2, 2, 4, 4, 6, 4, 30, 6, 6};
+    static const uint16_t W[12] = {60, 10, 14, 14, 6, 12, 8, 8, 4, 4, 4, 4}, WX[14] = {60, 10, 14, 14, 6, 12, 8, 8, 4, 4, 4, 4, 6, 6}, WY[18] = {40, 8, 10, 10, 4, 10, 8, 4, 2, 2, 4, 4, 6, 4, 30, 6, 6, 6};
     uint32_t op = runs ? c.t.weighted(WY) : ext ? c.t.weighted(WX) : c.t.weighted(W);   // mode "random" keeps the alphabet the saved witnesses were recorded with
     s.clear_tx(); s.clear_ev(); for (int p = 0; p < 4; p++) for (auto &a : x.mp[p].alt) a.out.clear();
     if (op == 0) { s.step_tick(); x.tick(); VLOG(c, "tick -> %ld", x.T); x.compare("tick"); }
@@ -156,6 +156,10 @@ void case_impl(Ctx &c, bool ext, bool runs = false) {
       if (x.mode == 4) continue; uint32_t nid = c.t.coin() ? 0x80 : 0x90;
       uint32_t code = cl.write(0x1005, 0, nid, 4); s.tx = cl.foreign; cl.foreign.clear(); CHECK(c, code == 0, "parameter-write", "write of %08X to 1005h of a SYNC consumer refused with %08X", nid, code);
       VLOG(c, "1005h := %08X", nid); if (nid != syncid) sync_moves++; syncid = nid; x.compare("write to 1005h");
+    } else if (op == 17) { // the communication cycle period 1006h is rewritten (the node consumes SYNC, it does not produce it): no SYNC has been received by that - no schedule moves
+      if (x.mode == 4) continue; uint32_t v = 1000u * (1 + c.t.below(50));
+      uint32_t code = cl.write(0x1006, 0, v, 4); s.tx = cl.foreign; cl.foreign.clear(); CHECK(c, code == 0, "parameter-write", "write of %u us to 1006h of a SYNC consumer refused with %08X", v, code);
+      VLOG(c, "1006h := %u us", v); x.compare("write to 1006h");
     } else if (op == 16) { // a frame on the identifier that is not (or no longer) the SYNC identifier: no SYNC, no TPDO
       uint32_t other = syncid == 0x80 ? 0x90 : 0x80; VLOG(c, "frame on %03X, which is not the SYNC identifier", other);
       s.rx(Frame::mk(other, 0, {})); x.compare("a frame that is no SYNC");
